@@ -39,6 +39,8 @@ def c07(doc, fails1, fails2, err1, code1):
         ln, col, rid = f[0], f[1], f[2]
         if not (1 <= ln <= nlines):
             out.append({"kind": "line-out-of-range", "detail": {"failure": list(f), "nlines": nlines}})
+        elif "\t" in lines[ln - 1]:
+            pass  # outside the claim: column semantics on a line containing a TAB is undocumented
         elif not (1 <= col <= len(lines[ln - 1]) + 1):
             out.append({"kind": "column-out-of-range", "detail": {"failure": list(f), "line_length": len(lines[ln - 1])}})
         key = (ln, col, rid)
@@ -184,3 +186,82 @@ def c14(log, docs_in_order, token_lists, enabled=True):
     if i != n:
         out.append({"kind": "extra-calls", "detail": {"extra": n - i, "first": log[i][0]}})
     return out
+
+
+def c16(routes, fixed_texts):
+    """routes: name -> list of (line, col, id, name, extra) or None (route not applicable /
+    failed); fixed_texts: name -> text or None.  All applicable routes must agree."""
+    out = []
+    ref_name = None
+    ref = None
+    for name, fails in routes.items():
+        if fails is None:
+            continue
+        if ref is None:
+            ref_name, ref = name, fails
+        elif not (list(fails) == list(ref)):
+            out.append({"kind": "routes-disagree", "detail": {"a": ref_name, "b": name, "a_fails": [list(f) for f in ref][:8], "b_fails": [list(f) for f in fails][:8]}})
+    ref_name = None
+    ref = None
+    for name, text in fixed_texts.items():
+        if text is None:
+            continue
+        if ref is None:
+            ref_name, ref = name, text
+        elif not (text == ref):
+            out.append({"kind": "fixed-text-disagrees", "detail": {"a": ref_name, "b": name, "a_text": ref, "b_text": text}})
+    return out
+
+
+def c13(multi_fails_b, single_fails_b, multi_pragma_b, single_pragma_b, multi_text_b, single_text_b, multi_fixed_b, single_fixed_b):
+    out = []
+    if not (list(multi_fails_b) == list(single_fails_b)):
+        out.append({"kind": "failures-depend-on-earlier-file", "detail": {"after_other_file": [list(f) for f in multi_fails_b][:8], "alone": [list(f) for f in single_fails_b][:8]}})
+    if not (list(multi_pragma_b) == list(single_pragma_b)):
+        out.append({"kind": "pragma-errors-depend-on-earlier-file", "detail": {"after_other_file": [list(f) for f in multi_pragma_b][:4], "alone": [list(f) for f in single_pragma_b][:4]}})
+    if not (multi_text_b == single_text_b):
+        out.append({"kind": "fixed-bytes-depend-on-earlier-file", "detail": {"after_other_file": multi_text_b, "alone": single_text_b}})
+    if multi_fixed_b != single_fixed_b:
+        out.append({"kind": "fixed-announcement-depends-on-earlier-file", "detail": {"after_other_file": multi_fixed_b, "alone": single_fixed_b}})
+    return out
+
+
+def classify_err(err):
+    """(system_error, no_files) from the stderr records of one run"""
+    system_error = False
+    no_files = False
+    for e in err:
+        if not isinstance(e, str):
+            continue
+        t = e.strip()
+        if t.startswith("No matching files found") or t.startswith("Provided path") or t.startswith("Provided file path") or t.startswith("Provided glob path"):
+            no_files = True
+        elif t:
+            system_error = True
+    return system_error, no_files
+
+
+# user guide, --return-code-scheme: category -> (default, minimal)
+EXIT_TABLE = {"success": (0, 0), "no-files": (1, 0), "command-line": (2, 2), "fixed": (3, 0), "failures": (1, 0), "system-error": (1, 1)}
+
+
+def c18(code, err, fails, fixed, minimal, forced_category=None):
+    """exit code == R-exit(category(observed), scheme)"""
+    if forced_category is not None:
+        cat = forced_category
+    else:
+        system_error, no_files = classify_err(err)
+        if system_error:
+            cat = "system-error"
+        elif no_files:
+            cat = "no-files"
+        elif fixed:
+            cat = "fixed"
+        elif fails:
+            cat = "failures"
+        else:
+            cat = "success"
+    want = EXIT_TABLE[cat][1 if minimal else 0]
+    if code != want:
+        return [{"kind": "exit-code", "detail": {"category": cat, "scheme": "minimal" if minimal else "default", "expected": want, "got": code}}]
+    return []
